@@ -141,6 +141,16 @@ impl<'a> PrettyPrinter<'a> {
             .enclose(open, close)
     }
 
+    /// An operand of an attachment, fraction or root. The flow switches to code mode for the expression directly
+    /// after a hash (`$a_#(1)x$`): that one is embedded code, whose parentheses may be needed.
+    fn convert_math_operand(&'a self, ctx: Context, expr: Expr<'a>) -> ArenaDoc<'a> {
+        if ctx.mode.is_code() {
+            self.convert_embedded_expr(ctx, expr)
+        } else {
+            self.convert_expr(ctx, expr)
+        }
+    }
+
     pub(super) fn convert_math_attach(
         &'a self,
         ctx: Context,
@@ -148,7 +158,7 @@ impl<'a> PrettyPrinter<'a> {
     ) -> ArenaDoc<'a> {
         self.convert_flow_like(ctx, math_attach.to_untyped(), |ctx, node| {
             if let Some(expr) = node.cast::<Expr>() {
-                FlowItem::tight(self.convert_expr(ctx, expr))
+                FlowItem::tight(self.convert_math_operand(ctx, expr))
             } else if node.kind() == SyntaxKind::Space {
                 FlowItem::none()
             } else {
@@ -172,7 +182,7 @@ impl<'a> PrettyPrinter<'a> {
     ) -> ArenaDoc<'a> {
         self.convert_flow_like(ctx, math_frac.to_untyped(), |ctx, node| {
             if let Some(expr) = node.cast::<Expr>() {
-                FlowItem::spaced(self.convert_expr(ctx, expr))
+                FlowItem::spaced(self.convert_math_operand(ctx, expr))
             } else if node.kind() != SyntaxKind::Space {
                 FlowItem::spaced(self.convert_trivia_untyped(node))
             } else {
@@ -188,7 +198,7 @@ impl<'a> PrettyPrinter<'a> {
     ) -> ArenaDoc<'a> {
         self.convert_flow_like(ctx, math_root.to_untyped(), |ctx, node| {
             if let Some(expr) = node.cast::<Expr>() {
-                FlowItem::tight(self.convert_expr(ctx, expr))
+                FlowItem::tight(self.convert_math_operand(ctx, expr))
             } else if node.kind() == SyntaxKind::Space {
                 FlowItem::none()
             } else {
